@@ -220,7 +220,10 @@ func checkC12(c caseC12) (Outcome, error) {
 	tres := h.Run(&cli.Total{FilterArgs: filter, DiffArgs: util.DiffArgs{Diff: true}, NowArgs: util.NowArgs{Now: c.Now}, DecimalArgs: util.DecimalArgs{Decimal: true},
 		WarnArgs: util.WarnArgs{NoWarn: true}, NoStyleArgs: util.NoStyleArgs{NoStyle: true}, InputFilesArgs: util.InputFilesArgs{File: fileArgs([]string{file})}})
 	if tres.Err != nil {
-		out.Label("total-failed")
+		if !c.Now {
+			return out, fmt.Errorf("klog total failed on a valid file: %s: %s\ntext: %s", tres.Err.Error(), tres.Err.Details(), quoteShort(text))
+		}
+		out.Label("total-failed") // --now that cannot close an open range: C17's subject
 		return out, nil
 	}
 	tv, perr := parseTotalOutput(tres.Out, true)
@@ -418,7 +421,10 @@ func checkToday(c caseC12, h *harness, file, text string) error {
 	res := h.Run(&cli.Today{DiffArgs: util.DiffArgs{Diff: true}, NowArgs: util.NowArgs{Now: c.Now}, DecimalArgs: util.DecimalArgs{Decimal: true},
 		WarnArgs: util.WarnArgs{NoWarn: true}, NoStyleArgs: util.NoStyleArgs{NoStyle: true}, InputFilesArgs: util.InputFilesArgs{File: fileArgs([]string{file})}})
 	if res.Err != nil {
-		return nil // e.g. --now with an open range outside the filter window: not this property's subject
+		if !c.Now {
+			return fmt.Errorf("klog today failed: %s: %s\ntext: %s", res.Err.Error(), res.Err.Details(), quoteShort(text))
+		}
+		return nil // --now that cannot close an open range: C17's subject
 	}
 	var cur, oth [2]int // total, should
 	hasToday, hasYesterday := false, false
